@@ -480,8 +480,27 @@ func c10Child(args []string) error {
 		cold2, _ := sc.mk3()
 		a := render.ToTriangles(cold2, render.NewMarchingCubesUniform(10))
 		b := render.ToTriangles(ref, render.NewMarchingCubesOctree(10))
-		_ = a
 		_ = b
+		// two renders at once share the evaluation pool: each must still get its own values (compare with
+		// the render that ran alone)
+		other, _ := sc.mk3()
+		a13 := render.ToTriangles(other, render.NewMarchingCubesUniform(13))
+		for round := 0; round < 3; round++ {
+			var r10, r13 []*sdf.Triangle3
+			var wg3 sync.WaitGroup
+			start := make(chan struct{})
+			wg3.Add(2)
+			go func() { defer wg3.Done(); <-start; r10 = render.ToTriangles(cold2, render.NewMarchingCubesUniform(10)) }()
+			go func() { defer wg3.Done(); <-start; r13 = render.ToTriangles(other, render.NewMarchingCubesUniform(13)) }()
+			close(start)
+			wg3.Wait()
+			if digestTris(r10) != digestTris(a) || len(r10) != len(a) {
+				o.Mismatch++
+			}
+			if digestTris(r13) != digestTris(a13) || len(r13) != len(a13) {
+				o.Mismatch++
+			}
+		}
 	}
 	emit(o)
 	return nil
